@@ -46,7 +46,10 @@ func main() {
 		if err != nil {
 			panic(err)
 		}
-		cases, n := ematchCases(string(data), 200, 6000, 6)
+		cases, n := ematchCasesSplit(string(data), 200, 6000, 6, false, false)
+		if len(os.Args) > 4 && os.Args[4] == "split" {
+			cases, n = ematchCasesSplit(string(data), 200, 6000, 6, false, true)
+		}
 		fmt.Fprintf(os.Stderr, "cases=%d instances=%d\n", len(cases), n)
 		for i, c := range cases {
 			os.WriteFile(fmt.Sprintf("%s.case%d.smt2", os.Args[3], i), []byte(c), 0o644)
